@@ -4,7 +4,7 @@ The statement is an implication between predicates on link state.  Each predicat
 code (path conditions of the selector loops, return formulas of the two `any` closures, the value stored to
 `stall_gated`) and the chain of implications is decided propositionally.
 """
-from ..ctx import CONN, is_call, is_field, sname
+from ..ctx import is_iter_next, CONN, is_call, is_field, sname
 from ..expr import show, walk
 from ..linkpred import LINK, NOW, LinkSpace, closure_rt, find_link_and_now, mapping_for
 from ..pathcond import calls_to, field_stores
@@ -19,7 +19,7 @@ PHASE = "srtla_core::connection::LinkPhase"
 
 def _is_iter_atom(a):
     for x in walk(a):
-        if x and x[0] == "call" and "Iterator>::next" in x[1]:
+        if is_iter_next(x):
             return True
     return False
 
